@@ -44,3 +44,19 @@ package contracts
 //@   trusted unicode.IsDigit agrees with [0-9] on ASCII
 //@   pure
 //@   ensures r < 128 ==> (result <==> (r >= '0' && r <= '9'))
+
+//@ func bits.TrailingZeros32
+//@   trusted documented behaviour of math/bits.TrailingZeros32: the number of trailing zero bits, 32 for x == 0
+//@   pure
+//@   mode bv
+//@   ensures 0 <= result && result <= 32 && (result == 32 <==> x == 0)
+//@   ensures x != 0 ==> (x >> uint32(result)) & 1 == 1
+//@   ensures x != 0 ==> x & ((uint32(1) << uint32(result)) - 1) == 0
+
+//@ func bits.Len32
+//@   trusted documented behaviour of math/bits.Len32: the minimum number of bits required to represent x; 0 for x == 0
+//@   pure
+//@   mode bv
+//@   ensures 0 <= result && result <= 32 && (result == 0 <==> x == 0)
+//@   ensures result < 32 ==> x >> uint32(result) == 0
+//@   ensures x != 0 ==> (x >> uint32(result - 1)) & 1 == 1
